@@ -83,7 +83,7 @@ impl Check for C19 {
     }
 
     fn rule(&self) -> String {
-        "case = SimPair scenario (multi-fragment sizes biased to k*1448+-1 and arbitrary non-multiples, all modes, faults, small windows so that the receive window advances over partial packets) executed under the checking allocator, with the whole pair dropped after a generated number of ticks (mid-transfer) or after a fair tail. A second case kind runs a World script (real Server and 1-3 Clients: sends of all sizes in both directions, disconnects, Server::drop, faults) and drops Server, Clients and everything in flight after 0 / 0.3 / 3 / 25 s of settling. Oracle: the allocator recorded no dealloc / realloc whose size or alignment differs from the one the block was allocated with, and the thread's live-byte count after everything created by the case has been dropped equals the count on entry (one warm-up execution per worker first). Non-trivial = a multi-fragment packet whose length is not a multiple of 1448 completed reassembly and was delivered, or the pair was dropped with data in flight. Distinct = distinct serialised case.".into()
+        "case = SimPair scenario (multi-fragment sizes biased to k*1448+-1 and arbitrary non-multiples, all modes, faults, small windows so that the receive window advances over partial packets) executed under the checking allocator, with the whole pair dropped after a generated number of ticks (mid-transfer) or after a fair tail. A second case kind runs a World script (real Server and 1-3 Clients: sends of all sizes in both directions, disconnects, Server::drop, faults) and drops Server, Clients and everything in flight after 0 / 0.3 / 3 / 25 s of settling. Freed blocks are checksummed and quarantined until the case ends. Oracle: no block released twice, no release of a pointer that is not a live block, no write into a released block; the allocator recorded no dealloc / realloc whose size or alignment differs from the one the block was allocated with, and the thread's live-byte count after everything created by the case has been dropped equals the count on entry (one warm-up execution per worker first). Non-trivial = a multi-fragment packet whose length is not a multiple of 1448 completed reassembly and was delivered, or the pair was dropped with data in flight. Distinct = distinct serialised case.".into()
     }
 
     fn assumptions(&self) -> Vec<String> {
@@ -105,11 +105,36 @@ impl Check for C19 {
             WARM.with(|w| w.set(true));
         }
         alloc::reset_mismatches();
+        let _ = (alloc::take_double_frees(), alloc::take_invalid_frees(), alloc::take_writes_after_free());
         let before = alloc::live();
-        let out = exercise(&case);
+        let out = {
+            // freed blocks are checksummed and held back until the case is over: a second release of a block, or a
+            // write into it, is then seen reliably
+            struct Scope;
+            impl Drop for Scope {
+                fn drop(&mut self) {
+                    alloc::quarantine_end();
+                }
+            }
+            alloc::quarantine_begin();
+            let _scope = Scope;
+            exercise(&case)
+        };
         let after = alloc::live();
         let mm = alloc::mismatches();
         let mut classes: Vec<&'static str> = Vec::new();
+        let (df, df_size) = alloc::take_double_frees();
+        if df > 0 {
+            return CaseResult::fail("oracle:c19:double_free", format!("{df} heap block(s) were released a second time (the first of them had {df_size} bytes)"));
+        }
+        let inv = alloc::take_invalid_frees();
+        if inv > 0 {
+            return CaseResult::fail("oracle:c19:invalid_free", format!("{inv} release(s) of pointers that are not live heap blocks"));
+        }
+        let waf = alloc::take_writes_after_free();
+        if waf > 0 {
+            return CaseResult::fail("oracle:c19:write_after_free", format!("{waf} heap block(s) were written to after they had been released"));
+        }
         if mm.count > 0 {
             return CaseResult::fail(
                 "oracle:c19:layout_mismatch",
